@@ -548,4 +548,29 @@ example : (match sampleModule.toBio with
       | _ => false)
     | _ => false) = true := by decide +kernel
 
+/-! ### `CDS_motif` features of other tools (`ExternalCDSMotif`) -/
+
+/-- every qualifier an external motif arrived with is in the feature that is written for it, with its value — also
+    when its key is one of the placeholder keys (`locus_tag`, `protein_start`, `protein_end`, `aSTool`) the parent
+    classes fill in; whatever the parent classes wrote -/
+theorem external_motif_keeps_its_qualifiers (written original : Quals) (h : Q.Nodup original) (k : String) (v : List String)
+    (hk : Q.get? original k = some v) : Q.get? (extWrite written original) k = some v := by
+  unfold extWrite
+  rw [Q.get?_update _ _ h, hk]
+
+/-- … and nothing but the originals and what the parent classes wrote under other keys -/
+theorem external_motif_writes_no_placeholder (written original : Quals) (h : Q.Nodup original) (k : String)
+    (hk : k ∈ extPlaceholders) (ho : Q.get? original k = none) : Q.get? (extWrite written original) k = none := by
+  unfold extWrite
+  rw [Q.get?_update _ _ h, ho, get?_eraseAll]
+  simp [hk]
+
+/-- non-vacuity and the seeded order refuted: a motif that arrived with its own `locus_tag` is written with it; restoring
+    the originals *before* dropping the placeholders loses it -/
+theorem restoring_first_loses_the_locus_tag :
+    Q.get? (extWrite [("aSTool", ["external"]), ("locus_tag", ["CDS_motif"]), ("note", ["n"]), ("protein_end", ["1"]), ("protein_start", ["0"])]
+                     [("locus_tag", ["extmotif1"]), ("note", ["n"])]) "locus_tag" = some ["extmotif1"] ∧
+    Q.get? (extWriteRestoreFirst [("aSTool", ["external"]), ("locus_tag", ["CDS_motif"]), ("note", ["n"]), ("protein_end", ["1"]), ("protein_start", ["0"])]
+                                 [("locus_tag", ["extmotif1"]), ("note", ["n"])]) "locus_tag" = none := by decide +kernel
+
 end ASV.C10
